@@ -21,6 +21,7 @@ for s in $LIST; do
   [ "$s" = "C07-J" ] && checks="C07 C06"
   [ "$s" = "C15-J" ] && checks="C15 C16"   # a Direct left waiting by Close: announce/receiver.go, C16's statement
   [ "$s" = "C14-J" ] && checks="C14 C08"   # idle cleaner vs a sync waiting for its head: C08's long-sync unit
+  [ "$s" = "C15-L" ] && checks="C15 C14"   # notification of an explicit sync that finishes during Close: C14's close-during-sync unit
   cd /repo; if [ -n "$(git status --porcelain)" ]; then echo "/repo dirty"; exit 2; fi
   if ! git apply /verif/seeded/$s/patch.diff 2>/dev/null; then
     if ! patch -p1 --no-backup-if-mismatch -s < /verif/seeded/$s/patch.diff >/dev/null 2>&1; then git checkout -- .; git clean -fdq; echo "$s: patch does not apply to the current tree"; echo "{\"applies\": false}" > /verif/seeded/$s/detection.json; continue; fi
